@@ -10,6 +10,7 @@
 //!   oracle.txt    one line per *failed* evaluation of the property's executable restatement
 //!   stats.json    counts, input distribution, samples
 
+mod alloc;
 mod ctx;
 mod frame;
 mod gen;
@@ -20,6 +21,10 @@ mod props;
 mod sigrec;
 mod wire;
 
+/// counting allocator (C19); a no-op plus one relaxed load unless a measurement is running
+#[global_allocator]
+static GLOBAL: alloc::Counting = alloc::Counting;
+
 use ctx::{Ctx, Tier};
 
 fn main() {
@@ -27,6 +32,10 @@ fn main() {
     if args.len() < 2 {
         eprintln!("usage: {} <PROP> --tier quick|thorough --seed N --out DIR", args[0]);
         std::process::exit(2);
+    }
+    if args[1] == "C04-child" {
+        props::c04::child::child_main(&args);
+        return;
     }
     let prop = args[1].clone();
     let mut tier = Tier::Quick;
